@@ -236,7 +236,7 @@ func exactByteMatch(quote *pb.QuoteV4, opts *Options) error {
 }
 
 func isSvnHigherOrEqual(quoteSvn []byte, optionSvn []byte) bool {
-	if optionSvn == nil {
+	if len(optionSvn) == 0 {
 		return true
 	}
 	for i := range quoteSvn {
@@ -252,6 +252,9 @@ func minVersionCheck(quote *pb.QuoteV4, opts *Options) error {
 	logger.V(1).Info("Setting the minimum_pce_svn parameter value to ", opts.HeaderOptions.MinimumPceSvn)
 	logger.V(1).Info("Setting the minimum_tee_tcb_svn parameter value to ", opts.TdQuoteBodyOptions.MinimumTeeTcbSvn)
 
+	if minSvn := opts.TdQuoteBodyOptions.MinimumTeeTcbSvn; len(minSvn) != 0 && len(minSvn) != abi.TeeTcbSvnSize {
+		return fmt.Errorf("option MinimumTeeTcbSvn must be nil or %d bytes", abi.TeeTcbSvnSize)
+	}
 	logger.V(2).Infof("TEE TCB security-version number is %v, and minimum_tee_tcb_svn value is %v", quote.GetTdQuoteBody().GetTeeTcbSvn(), opts.TdQuoteBodyOptions.MinimumTeeTcbSvn)
 	if !isSvnHigherOrEqual(quote.GetTdQuoteBody().GetTeeTcbSvn(), opts.TdQuoteBodyOptions.MinimumTeeTcbSvn) {
 		return fmt.Errorf("TEE TCB security-version number %d is less than the required minimum %d",
